@@ -197,7 +197,7 @@ Fixpoint verdicts_agree (f : ver_flags) (seq : list (provider * json)) (a b : li
   match seq, a, b with
   | [], [], [] => true
   | pe :: seq', x :: a', y :: b' =>
-      (negb (one_room f (p_auths (fst pe))) || bytes_eqb x y) && verdicts_agree f seq' a' b'
+      (negb (valid9 f (p_auths (fst pe))) || bytes_eqb x y) && verdicts_agree f seq' a' b'
   | _, _, _ => false
   end.
 
@@ -316,7 +316,7 @@ Definition decode_orders (j : json) : list (list nat) :=
   end.
 
 (* [ver; event; orders; signature table of the event; inserted event ...] -> allowed9 for the
-   list in every order (find_auth: the later event of a key wins; one_room: all events supplied) *)
+   list in every order (find_auth: the later event of a key wins; valid9: the entries held) *)
 Definition run_order (args : list bytes) : bytes :=
   match args with
   | ver :: ev :: orders :: sigs :: pool =>
@@ -337,6 +337,22 @@ Fixpoint winners (key : nat -> bytes * bytes) (o : list nat) : list nat :=
   | [] => []
   | i :: r => if existsb (fun j => tuple_eqb (key i) (key j)) r then winners key r else i :: winners key r
   end.
+(* the same, next to the verdict for the entries held in the end alone *)
+Definition run_replace (args : list bytes) : bytes :=
+  match args with
+  | ver :: ev :: orders :: sigs :: pool =>
+      match flags_of_version ver, parse_json ev, parse_json orders, parse_json sigs, parse_all pool with
+      | Some f, Some e, Some os, Some tbl, Some evs =>
+          let so := fun (_ : json) => table_oracle (sig_table tbl) in
+          let key := fun i => ev_key (nth i evs JNull) in
+          let verdict := fun o => verdict_bytes (Some (allowed9 so f e (map (fun k => nth k evs JNull) o))) in
+          join_bytes comma (map verdict (decode_orders os)) ++ [124] ++
+          join_bytes comma (map (fun o => verdict (winners key o)) (decode_orders os))
+      | _, _, _, _, _ => bs "badargs"
+      end
+  | _ => bs "badargs"
+  end.
+
 Definition same_set (a b : list nat) : bool :=
   forallb (fun x => existsb (Nat.eqb x) b) a && forallb (fun x => existsb (Nat.eqb x) a) b.
 
@@ -389,6 +405,7 @@ Definition ops_C09 : list (bytes * (list bytes -> bytes)) :=
     (bs "C09.repeat", run_repeat);
     (bs "C09.refill", run_refill);
     (bs "C09.order", run_order);
+    (bs "C09.replace", run_replace);
     (bs "C09.prop.order_of_duplicates", prop_order_of_duplicates);
     (bs "C09.prop.halves_equal", prop_halves_equal);
     (bs "C09.prop.same_on_every_evaluation", prop_same_on_every_evaluation);
